@@ -6,6 +6,7 @@ import (
 	"go/token"
 	"go/types"
 	"math/big"
+	"sort"
 	"strings"
 )
 
@@ -262,6 +263,27 @@ func (x *Exec) readGlobal(s *State, o *types.Var) Val {
 	if v.K == KIface && x.eng.globalNonNil(o) {
 		s.assume(mkNot(mkEq(v.Tag, "0")))
 	}
+	if v.K == KIface && x.eng.globalSentinel(o) && strings.HasSuffix(v.Tag, "@0") && strings.HasSuffix(v.Dat, "@0") {
+		// sentinel errors made by their own errors.New call are distinct objects without a chain
+		key := o.Pkg().Path() + "." + o.Name()
+		if x.eng.sentinels == nil {
+			x.eng.sentinels = map[string][2]string{}
+		}
+		for _, k := range sortedKeys2(x.eng.sentinels) {
+			if k == key {
+				continue
+			}
+			ot := x.eng.sentinels[k]
+			s.assume(mkNot(mkAnd(mkEq(v.Tag, ot[0]), mkEq(v.Dat, ot[1]))))
+		}
+		x.eng.sentinels[key] = [2]string{v.Tag, v.Dat}
+		if _, ok := x.eng.db.UFs["eis"]; ok {
+			x.eng.usedUF["eis"] = true
+			s.assume(sf("(forall ((a!s Int) (b!s Int)) (! (= (eis %s %s a!s b!s) (and (= a!s %s) (= b!s %s))) :pattern ((eis %s %s a!s b!s))))",
+				v.Tag, v.Dat, v.Tag, v.Dat, v.Tag, v.Dat))
+		}
+		x.eng.note("sentinel error variables initialised by their own errors.New call are distinct objects with no Unwrap chain (" + o.Pkg().Name() + "." + o.Name() + ")")
+	}
 	return s.annotate(v)
 }
 
@@ -372,6 +394,75 @@ func (e *Engine) globalNonNil(o *types.Var) bool {
 	}
 	e.gnn[o] = res
 	return res
+}
+
+// globalSentinel: a package-level error variable initialised by its own errors.New/Errorf call (or a
+// well-known sentinel of the standard library): a distinct object that wraps nothing.
+func (e *Engine) globalSentinel(o *types.Var) bool {
+	if r, ok := e.gsent[o]; ok {
+		return r
+	}
+	if e.gsent == nil {
+		e.gsent = map[*types.Var]bool{}
+	}
+	res := false
+	if p, ok := e.pkgs[o.Pkg().Path()]; ok {
+		for _, f := range p.Syntax {
+			for _, d := range f.Decls {
+				gd, ok := d.(*ast.GenDecl)
+				if !ok || gd.Tok != token.VAR {
+					continue
+				}
+				for _, sp := range gd.Specs {
+					vs := sp.(*ast.ValueSpec)
+					for i, n := range vs.Names {
+						if p.TypesInfo.Defs[n] != o || i >= len(vs.Values) {
+							continue
+						}
+						if call, ok := vs.Values[i].(*ast.CallExpr); ok {
+							if fn, ok := typeutilCallee(p.TypesInfo, call); ok && fn.Pkg() != nil {
+								pk := fn.Pkg().Path()
+								if (pk == "errors" || pk == "github.com/go-faster/errors") && fn.Name() == "New" {
+									res = true
+								}
+							}
+						}
+					}
+				}
+			}
+		}
+	} else {
+		switch o.Pkg().Path() + "." + o.Name() {
+		case "context.Canceled", "context.DeadlineExceeded", "io.EOF", "io.ErrUnexpectedEOF":
+			res = true
+		}
+	}
+	e.gsent[o] = res
+	return res
+}
+
+func typeutilCallee(info *types.Info, call *ast.CallExpr) (*types.Func, bool) {
+	var id *ast.Ident
+	switch f := call.Fun.(type) {
+	case *ast.Ident:
+		id = f
+	case *ast.SelectorExpr:
+		id = f.Sel
+	}
+	if id == nil {
+		return nil, false
+	}
+	fn, ok := info.Uses[id].(*types.Func)
+	return fn, ok
+}
+
+func sortedKeys2(m map[string][2]string) []string {
+	var ks []string
+	for k := range m {
+		ks = append(ks, k)
+	}
+	sort.Strings(ks)
+	return ks
 }
 
 func (x *Exec) evalComposite(s *State, e *ast.CompositeLit) Val {
